@@ -268,6 +268,12 @@ func (tm *termer) render(v ssa.Value) *Term {
 		}
 		return &Term{Op: "alloc:" + typeShort(v.Type())}
 	case *ssa.FieldAddr:
+		// a field of a local struct that is assigned exactly once (struct literal): the assigned value
+		if al, ok := v.X.(*ssa.Alloc); ok {
+			if fv := singleFieldStore(al, v.Field); fv != nil {
+				return &Term{Op: "ref", Args: tm.args(fv)}
+			}
+		}
 		return &Term{Op: "field:" + fieldName(v.X.Type(), v.Field), Args: []*Term{tm.deref(v.X)}}
 	case *ssa.Field:
 		return &Term{Op: "field:" + fieldName(v.X.Type(), v.Field), Args: tm.args(v.X)}
@@ -550,4 +556,34 @@ func (t *Term) Brief() string {
 		return op + "(" + strings.Join(parts, ",") + ")"
 	}
 	return op
+}
+
+
+// singleFieldStore: the alloc is a struct local that is never stored as a whole (or only
+// zero-initialised) and whose field idx is stored exactly once; returns that value.
+func singleFieldStore(al *ssa.Alloc, idx int) ssa.Value {
+	var val ssa.Value
+	n := 0
+	for _, r := range *al.Referrers() {
+		switch x := r.(type) {
+		case *ssa.Store:
+			if x.Addr == al {
+				return nil // whole-struct store: the field comes from that value
+			}
+		case *ssa.FieldAddr:
+			if x.Field != idx {
+				continue
+			}
+			for _, rr := range *x.Referrers() {
+				if st, ok := rr.(*ssa.Store); ok && st.Addr == x {
+					n++
+					val = st.Val
+				}
+			}
+		}
+	}
+	if n == 1 {
+		return val
+	}
+	return nil
 }
